@@ -195,26 +195,30 @@ def doItem (w : World) (s : BState) : Item → BState
     | some num => { s with cfuncs := s.cfuncs.modify num (fun c => { c with ops := ops }) }
     | none => s
 
-/-- the loop of epilog() over the runtime entries -/
+/-- the new value of runtime entry i in one iteration of the loop of epilog(); `slots` is the table before the
+    iteration (the aliased entry is read after entry i itself has been updated, which only matters if an entry
+    aliased itself) -/
+def epilogSlot (slots : List BSlot) (i : Nat) (sl : BSlot) : BSlot :=
+  -- functions not defined at this level but defined below: inherited (and real, unless prototype / alias)
+  let byInh := hasBit sl.flags nameUndefined && hasBit sl.flags nameDefByInherit
+  let ff := if byInh && !(hasBit sl.flags (namePrototype ||| nameAlias)) then sl.flags &&& (sl.flags ^^^ nameUndefined)
+            else sl.flags
+  let f1 := if byInh then ff ||| nameInherited else sl.flags
+  let fr : Nat × REntry :=
+    if hasBit ff nameAlias then
+      match (if sl.aliasFor = i then some { sl with flags := f1 } else slots[sl.aliasFor]?) with
+      | none => (f1, sl.rt)
+      | some wh =>
+        if !(hasBit wh.flags nameInherited) || wh.aliasFor ≥ 2 then (wh.flags ||| nameAlias, wh.rt)
+        else (wh.flags ||| nameAlias, sl.rt)
+    else (f1, sl.rt)
+  { sl with flags := fr.1, rt := fr.2 }
+
+/-- one iteration of the loop of epilog() over the runtime entries -/
 def epilogStep (slots : List BSlot) (i : Nat) : List BSlot :=
   match slots[i]? with
   | none => slots
-  | some sl =>
-    let funflags := sl.flags
-    let (slots, funflags) :=
-      if hasBit funflags nameUndefined && hasBit funflags nameDefByInherit then
-        let ff := if !(hasBit funflags (namePrototype ||| nameAlias)) then funflags &&& (funflags ^^^ nameUndefined) else funflags
-        (slots.modify i (fun s => { s with flags := ff ||| nameInherited }), ff)
-      else (slots, funflags)
-    if hasBit funflags nameAlias then
-      match slots[sl.aliasFor]? with
-      | none => slots
-      | some wh =>
-        if !(hasBit wh.flags nameInherited) || wh.aliasFor ≥ 2 then
-          slots.modify i (fun s => { s with rt := wh.rt, flags := wh.flags ||| nameAlias })
-        else
-          slots.modify i (fun s => { s with flags := wh.flags ||| nameAlias })
-    else slots
+  | some sl => slots.set i (epilogSlot slots i sl)
 
 def epilogSlots (slots : List BSlot) : List BSlot := (List.range slots.length).foldl epilogStep slots
 
